@@ -194,6 +194,9 @@ def parse_element(
     ):
         if keyword in schema:
             schema[keyword] = parser(schema, state)  # type: ignore
+    if not schema.get("properties", True):
+        # No properties is the same as no keyword (and is serialized so).
+        del schema["properties"]
     schema["additionalProperties"] = _parse_additional_properties(schema, state)
     schema["additionalItems"] = _parse_additional_items(schema, state)
     if set(COMPOSITION_KEYWORDS) & set(schema):
